@@ -3161,6 +3161,11 @@ static int get_first_char(struct scanner_s *scanner) {
             } else if (nread == 0) {
                 scanner->at_eof = CIF_TRUE;  /* but don't return CIF_EOF, because we do provide one character */
             } else if (*(scanner->buffer + 1) != UCHAR_NL) {
+                if (*(scanner->buffer + 1) == UCHAR_CR) {
+                    /* a second terminator; get_more_chars() must drop an LF that completes it */
+                    *(scanner->buffer + 1) = UCHAR_NL;
+                    scanner->cr_pending = 1;
+                }
                 scanner->buffer_limit += 1;
             } /* else the buffer limit will overall be increased by 1 only, effectively consuming the NL */
 
